@@ -80,4 +80,48 @@ D_VerifySucceeds(in) ==
                   /\ FirstValid(in) # 0 /\ FirstValid(in) <= in.n
                   /\ \A j \in 1..(FirstValid(in) - 1) : in.listing[j] # "unfetchable"))
 
+(***************************************************************************)
+(* Part 2 (C11): notation.SignOCI - resolve, pin the digest, merge the     *)
+(* user metadata into a PRIVATE copy of the resolved descriptor, sign,     *)
+(* build the manifest annotations, push with the resolved descriptor as    *)
+(* subject.  The repository's view of the artifact (art) and the caller's  *)
+(* maps are frame variables: no step changes them.                         *)
+(*                                                                         *)
+(* call = [ref : "tag"|"digest"|"fullTag"|"fullDigest"|"mismatch",         *)
+(*         meta : "empty"|"disjoint"|"colliding"|"reserved"]               *)
+(* art  = [annotated : BOOLEAN, store : "mem" | "oci" | "ociReopen"]       *)
+(*        annotated: the artifact is tagged with an annotation; an OCI     *)
+(*        layout hands out that annotation only for tag references (a      *)
+(*        digest reference resolves to a plain descriptor)                 *)
+(***************************************************************************)
+ResolvedAnnotated(art, ref) == art.annotated /\ (art.store = "mem" \/ ref \in {"tag", "fullTag"})
+SStart(art, refs, call) == [art |-> art, refs |-> refs, call |-> call, pc |-> "resolve", toSign |-> "none", signed |-> "none",
+                            subject |-> "none", ann |-> "none", ok |-> FALSE, why |-> "", callerMeta |-> call.meta]
+SRefuse(s, why) == [s EXCEPT !.pc = "done", !.ok = FALSE, !.why = why]
+SStep(s) ==
+  CASE s.pc = "resolve" -> [s EXCEPT !.pc = "pin"]
+    [] s.pc = "pin"     -> IF s.call.ref = "mismatch" THEN SRefuse(s, "digest-mismatch") ELSE [s EXCEPT !.pc = "merge"]
+    [] s.pc = "merge"   -> \* works on a copy: art is not touched
+         IF s.call.meta = "reserved" THEN SRefuse(s, "reserved-prefix")
+         ELSE IF s.call.meta = "colliding" /\ ResolvedAnnotated(s.art, s.call.ref) THEN SRefuse(s, "collides-with-annotation")
+         ELSE [s EXCEPT !.toSign = "resolved+meta", !.pc = "sign"]
+    [] s.pc = "sign"    -> [s EXCEPT !.signed = s.toSign, !.pc = "annotate"]
+    [] s.pc = "annotate" -> [s EXCEPT !.ann = "thumbprints+time", !.pc = "push"]
+    [] s.pc = "push"    -> [s EXCEPT !.subject = "resolved", !.refs = @ + 1, !.ok = TRUE, !.pc = "done"]
+RECURSIVE SRun(_)
+SRun(s) == IF s.pc = "done" THEN s ELSE SRun(SStep(s))
+
+(* what the caller and an observer of the repository see after one call *)
+SObs(s0, s) == [ok |-> s.ok, signedOK |-> s.ok => s.signed = "resolved+meta", subjectOK |-> s.ok => s.subject = "resolved",
+                annOK |-> s.ok => s.ann = "thumbprints+time", pushed |-> s.refs - s0.refs,
+                artSame |-> s.art = s0.art, callerSame |-> s.callerMeta = s0.callerMeta]
+
+(* a colliding key only collides when the artifact carries that annotation *)
+D_SignSucceeds(art, call) == call.ref # "mismatch" /\ call.meta # "reserved" /\ ~(call.meta = "colliding" /\ ResolvedAnnotated(art, call.ref))
+
+RECURSIVE SRunCalls(_, _, _, _)
+SRunCalls(art, refs, calls, i) ==
+  IF i > Len(calls) THEN <<>>
+  ELSE LET s0 == SStart(art, refs, calls[i])  s == SRun(s0) IN <<SObs(s0, s)>> \o SRunCalls(s.art, s.refs, calls, i + 1)
+
 =============================================================================
